@@ -210,6 +210,8 @@ def verify_group(gname, scratch, rlimit=30):
             g = assemble(gname, scratch, disabled, extra_items)
         except Undecided as e:
             return {"group": gname, "status": "undecided", "reason": str(e), "wall": time.time() - t0}
+        except Exception as e:   # a text the extractor cannot take apart is a tool limit, never an alarm
+            return {"group": gname, "status": "undecided", "reason": "extractor could not process the current source (%s: %s)" % (type(e).__name__, str(e)[:200]), "wall": time.time() - t0}
         res = run_verus(g.gen_path, rlimit=rlimit)
         fails, tool = classify(g, res)
         # rule R3 applied where the verifier asks for it: `&mut T -> &mut dyn Storage` unsizing is not supported by
